@@ -351,7 +351,7 @@ func simpleTypes(c *vkit.Collector, rng *vkit.Rng, budget int) {
 			m := []int{0, 1, 2, 5, 17}[rng.Intn(5)]
 			cu := make(s2.CellUnion, m)
 			for i := range cu {
-				cu[i] = cg.AnyCellID(rng)
+				cu[i] = cg.CellAt(rng, rng.Intn(6), rng.Intn(31), rng.Intn(4))
 			}
 			if rng.Intn(3) == 0 {
 				cu.Normalize()
@@ -376,7 +376,7 @@ func simpleTypes(c *vkit.Collector, rng *vkit.Rng, budget int) {
 			m := []int{0, 1, 2, 3, 9}[rng.Intn(5)]
 			pl := make(s2.Polyline, m)
 			for i := range pl {
-				pl[i] = cg.AnyPoint(rng)
+				pl[i] = cg.FinitePoint(rng)
 			}
 			b, err := cg.Enc(func(w *bytes.Buffer) error { return pl.Encode(w) })
 			var q s2.Polyline
@@ -505,7 +505,7 @@ func polygons(c *vkit.Collector, rng *vkit.Rng, budget int) {
 					onlyZeroSign = va[j].Vector == vb[j].Vector
 				}
 				if onlyZeroSign {
-					violate(c, "Polygon.compressed.zeroSign", "vertex coordinates come back == but not bit-identical: +0 becomes -0 for face centres (xyzToFaceSiTi compares with ==)", r2)
+					violate(c, "compressed.zeroSign", "vertex coordinates come back == but not bit-identical: +0 becomes -0 for face centres (xyzToFaceSiTi compares with ==)", r2)
 				} else {
 					violate(c, "Polygon.roundtrip", "vertices differ", r2)
 				}
